@@ -521,6 +521,9 @@ inline void register_cpc() {
 inline void register_group_a() {
 #ifdef C10_A1
   register_theta(); register_tuple(); register_aod();
+  for (const char* f : {"theta_compact_empty_from_java_v1.sk", "theta_compact_empty_from_java_v2.sk",
+                        "theta_compact_estimation_from_java_v1.sk", "theta_compact_estimation_from_java_v2.sk"})
+    shipped().push_back(Shipped{std::string("theta/test/") + f, f, "theta", [](const std::string& img, bool stream) { return readout_theta(read_theta(img, stream, DEFAULT_SEED)); }});
 #endif
 #ifdef C10_A2
   register_hll(); register_cpc();
